@@ -509,9 +509,49 @@ def _x2_objects(ctx, cur):
         ctx.last_object_history = None
 
 
+def _x2_int_extremes(ctx, cur):
+    """round 9 (hx_r9a): integer records (int8 / int16 / int32 / int64 ndarrays: raw digitiser counts) whose samples sit on the ENDS of the dtype's range,
+    where |x|, -x, x*x, x+y formed in the dtype wrap: samples from {0, min}, {min, min+1}, {min}, {0, max}, {min, max}, {0, -1, min}; the
+    transform must be that of the same numbers held in float64 (the pinned library converts before any arithmetic), for both implementations,
+    and leave the record alone"""
+    from eqsig import stockwell as sw
+    from _hxb_common import same, val
+    rng = ctx.rng
+    pats = ['0|min', 'min|min+1', 'min', '0|max', 'min|max', '0|-1|min', '0|min (one glitch)']
+    for it, dtp in enumerate((np.int8, np.int16, np.int32, np.int64) * (2 if ctx.tier == 'quick' else 10)):
+        ii = np.iinfo(dtp)
+        for pat in ([pats[it % len(pats)], pats[(it + 3) % len(pats)], '0|min'] if ctx.tier == 'quick' else pats):
+            n = rng.randint(4, 48)
+            pool = {'0|min': [0, ii.min], 'min|min+1': [ii.min, ii.min + 1], 'min': [ii.min], '0|max': [0, ii.max], 'min|max': [ii.min, ii.max],
+                    '0|-1|min': [0, -1, ii.min], '0|min (one glitch)': [0]}[pat]
+            ints = [rng.choice(pool) for _ in range(n)]
+            if pat.endswith('(one glitch)') or (pat == '0|min' and ii.min not in ints):
+                ints[rng.randrange(n)] = ii.min
+            if pat == '0|min' and 0 not in ints:
+                ints[rng.randrange(n)] = 0
+            c = np.array(ints, dtype=dtp)
+            vf = np.array([float(x) for x in ints])
+            lab = f'{np.dtype(dtp).name} {pat}'
+            cur.clear()
+            cur.update({'values': ints, 'dtype': np.dtype(dtp).name})
+            ctx.hist('extras2/int-extremes/' + lab)
+            ctx.count_case(('x2-int-extremes', lab, tuple(ints)), True)
+            snapc = c.copy()
+            Si, Si2 = np.asarray(sw.transform(vf)), np.asarray(sw.transform_w_scipy_fft(vf.copy()))
+            sc = max(float(np.max(np.abs(Si))), 1e-300)
+            g1, g2 = val(call_impl(sw.transform, c)), val(call_impl(sw.transform_w_scipy_fft, c))
+            inputs = {'values': ints, 'container': np.dtype(dtp).name + ' ndarray'}
+            ctx.oracle('C15 the transform does not depend on the container or dtype holding the record (transform)', g1 is not None and np.shape(g1) == Si.shape
+                       and bool(np.max(np.abs(g1 - Si), initial=0.0) <= 1e-12 * sc), inputs)
+            ctx.oracle('C15 the transform does not depend on the container or dtype holding the record (transform_w_scipy_fft)', g2 is not None and
+                       np.shape(g2) == Si2.shape and bool(np.max(np.abs(g2 - Si2), initial=0.0) <= 1e-12 * sc), inputs)
+            ctx.oracle('input unchanged by transform / transform_w_scipy_fft (any container)', same(c, snapc) and c.dtype == snapc.dtype, inputs)
+
+
 def extras2(ctx):
     from _hxb_common import guarded_sections
-    guarded_sections(ctx, 'C15', [('entry-points', _x2_entry_points), ('scale', _x2_scale), ('large', _x2_large), ('objects', _x2_objects)])
+    guarded_sections(ctx, 'C15', [('entry-points', _x2_entry_points), ('scale', _x2_scale), ('large', _x2_large), ('objects', _x2_objects),
+                                  ('int-extremes', _x2_int_extremes)])
 
 
 _run_main2 = run
